@@ -243,7 +243,10 @@ def recon_case(ctx, s, idx, bmkind="grid", adaptive=False):
         _as.compute_error = lambda *a, **k: 2.0
     try:
         with torch.no_grad(), H.quiet():
-            ys, (f, g, z) = torchsde.sdeint(sde, y0, ts, bm=bm, method="reversible_heun", dt=dt, extra=True, **akw)
+            # every fourth case takes the forward solve (and its final extra state) from sdeint_adjoint: the property
+            # speaks of "a forward solve followed by the reverse solve", whichever entry point made the forward solve
+            fwd = torchsde.sdeint_adjoint if idx % 4 == 1 else torchsde.sdeint
+            ys, (f, g, z) = fwd(sde, y0, ts, bm=bm, method="reversible_heun", dt=dt, extra=True, **akw)
             nq_f = len(bm.log)
             ysr, (fr, gr, zr) = torchsde.sdeint(H.NegReversed(sde), ys[-1], -ts.flip(0), bm=ReverseBrownian(bm),
                                                 method="reversible_heun", dt=dt, extra=True,
